@@ -6,7 +6,7 @@ CONSTANTS
   MaxDec = 1
   ManualMax = 1
   Combos <- CombosAll
-  MaxHist = 3
+  MaxHist = 2
 VIEW GenView
 ACTION_CONSTRAINT EmitBehaviour
 CHECK_DEADLOCK FALSE
